@@ -17,6 +17,20 @@ impl Summaries {
     pub fn get(&self, callee: FunctionId) -> (r: &Summary) ensures *r == self.of(callee) { unimplemented!() }
 }
 pub struct Facts { pub owned: Ghost<Set<int>>, pub all: Ghost<Set<int>> }      // the locals of the function being analysed
+pub struct Op { pub reads: IdSet, pub writes: IdSet, pub callee_reads_owned: Ghost<Set<int>>, pub some_callee_unavailable: Ghost<bool> }
+// R11: the loops of apply_op_transfer, each over one collection
+#[verifier::external_body]
+fn clear_all(live: &mut Bits, set: &IdSet) ensures final(live).s@ == old(live).s@.difference(set.s@) { unimplemented!() }
+#[verifier::external_body]
+fn set_all(live: &mut Bits, set: &IdSet) ensures final(live).s@ == old(live).s@.union(set.s@) { unimplemented!() }
+// the callee loop: by the contract of call_transfer (reads become live, every local when a summary is missing, nothing is cleared)
+#[verifier::external_body]
+fn callees_transfer(live: &mut Bits, op: &Op, facts: &Facts)
+    ensures !op.some_callee_unavailable@ ==> final(live).s@ == old(live).s@.union(op.callee_reads_owned@), op.some_callee_unavailable@ ==> final(live).s@ == facts.all@.union(old(live).s@)
+{ unimplemented!() }
+pub uninterp spec fn callee_writes_owned(op: &Op) -> Set<int>;
+#[verifier::external_body]
+fn callees_clear_writes(live: &mut Bits, op: &Op) ensures final(live).s@ == old(live).s@.difference(callee_writes_owned(op)) { unimplemented!() }
 // set_all_locals(&mut uses, local_count)
 #[verifier::external_body]
 fn set_all_locals(uses: &mut Bits, facts: &Facts) ensures final(uses).s@ == facts.all@ { unimplemented!() }
@@ -57,5 +71,19 @@ UNIT = VUnit(
                         Rw("R11", LOOP_W, "note_defs_owned(&mut defs, facts, &summary.transitive_capture_writes);", min_matches=0),
                         Rw("R11b", r"continue;", "return (uses, defs);", min_matches=0)],
               real_name="liveness::compute_block_facts (what a call contributes to a block's uses/defs)"),
+        # the backward transfer of one op: live_before = (live_after - the op's own writes) U its reads U what its callees may read; a callee's
+        # captured writes clear nothing
+        Fn("apply_op_transfer",
+           sig="fn apply_op_transfer(live: &mut Bits, op: &Op, facts: &Facts)",
+           expect_sig=r"fn apply_op_transfer\(\s*live: &mut BitSet<'_>,\s*op: &LinearOp<'_>,\s*function: FunctionId,\s*facts: &ProgramFacts<'_, '_>,\s*summaries: &SummarySlice<'_>,\s*local_start: u32,\s*local_count: u32,?\s*\)",
+           ensures=["!op.some_callee_unavailable@ ==> final(live).s@ =~= old(live).s@.difference(op.writes.s@).union(op.reads.s@).union(op.callee_reads_owned@)",
+                    "op.some_callee_unavailable@ ==> facts.all@.subset_of(final(live).s@)"],
+           rewrites=[Rw("R11", r"for &local in &op\.writes \{\s*clear_local\(live, local, local_start\);\s*\}", "clear_all(live, &op.writes);", min_matches=1),
+                     Rw("R11", r"for &local in &op\.reads \{\s*set_local\(live, local, local_start\);\s*\}", "set_all(live, &op.reads);", min_matches=1),
+                     # the callee loop that makes captured reads live (matched by its exact content) ...
+                     Rw("R11", r"for &callee in &op\.direct_callees \{\s*let summary = &summaries\[callee\.0 as usize\];\s*if !summary\.available \{\s*set_all_locals\(live, local_count\);\s*continue;\s*\}\s*for &local in &summary\.transitive_capture_reads \{\s*if facts\.locals\[local\.0 as usize\]\.owner == function \{\s*set_local\(live, local, local_start\);\s*\}\s*\}\s*\}", "callees_transfer(live, op, facts);", min_matches=1),
+                     # ... and, should it (re)appear, a callee loop that CLEARS what callees write: kept visible as a call that clears
+                     Rw("R11", r"for &callee in &op\.direct_callees \{\s*for &local in &summaries\[callee\.0 as usize\]\.transitive_capture_writes \{\s*if facts\.locals\[local\.0 as usize\]\.owner == function \{\s*clear_local\(live, local, local_start\);\s*\}\s*\}\s*\}", "callees_clear_writes(live, op);", min_matches=0)],
+           vacuity="-", real_name="liveness::apply_op_transfer"),
     ],
 )
